@@ -2074,6 +2074,8 @@ func transAll(v1, v2 *pkg) string {
 		{file: "batcher.go", recv: "Batcher", name: "NeedsCapacity", lean: "v1_NeedsCapacity"},
 		{file: "batcher.go", recv: "Batcher", name: "Start", lean: "v1_capacityArm", sliceAt: "if r.ratelimiter != nil {", sliceHas: "r.NeedsCapacity()", sliceN: 1, sliceOut: []string{"giveMeCalled", "giveMeArg"},
 			inputs: map[string]string{"r.ratelimiter != nil": "limited:bool"}, captureCalls: map[string]string{"r.ratelimiter.GiveMe": "giveMe"}},
+		{file: "batcher.go", recv: "Batcher", name: "Enqueue", lean: "v1_Enqueue", view: "_enqw", opaque: true,
+			inputs: map[string]string{"r.errorOnFullBuffer": "errorOnFull:bool"}, chanCap: map[string]string{"buffer": "in:bufCap"}},
 		{file: "batcher.go", recv: "Batcher", name: "Enqueue", lean: "v1_enqueueTail", view: "_enq", sliceAt: "r.incTarget(int(op.Cost()))", sliceN: 4,
 			inputs: map[string]string{"op.Cost()": "cost:int", "r.errorOnFullBuffer": "errorOnFull:bool"}, chanCap: map[string]string{"buffer": "in:bufCap"}},
 		{file: "batcher.go", recv: "Batcher", name: "Start", lean: "v1_finishTail", sliceAt: "var total int = 0", sliceN: 3,
